@@ -302,7 +302,7 @@ def _files_info(members: list[Member], with_attributes: bool, with_mtime: bool) 
 
 def write_7z(members: list[Member], *, method: str = "copy", layout: str = "solid",
              encode_header: bool = False, aes_marker: bool = False, aes_header: bool | str = False,
-             with_attributes: bool = True, with_mtime: bool = True, crc: bool = True) -> bytes:
+             with_attributes: bool = True, with_mtime: bool = True, crc: bool = True, declared_sizes: dict | None = None) -> bytes:
     """Serialize `members` into a 7z archive.  See the module docstring for the byte layout.
 
     layout: "solid"    one folder holding every non-empty file as a substream
@@ -327,6 +327,9 @@ def write_7z(members: list[Member], *, method: str = "copy", layout: str = "soli
     streams = [m.data for m in members if m.data and not m.is_dir]
     folders = [_make_folder(files, method, aes_marker, crc) for files in _split(streams, layout)]
     packed = b"".join(f.packed for f in folders)
+    if declared_sizes:
+        # forged header: folder i declares another unpack size than its stream really has (the packed bytes stay as they are)
+        folders = [f._replace(out_sizes=f.out_sizes[:-1] + [declared_sizes[i]], crc=None) if i in declared_sizes else f for i, f in enumerate(folders)]
 
     header = bytes([K_HEADER])
     if folders:
